@@ -3,13 +3,13 @@ NEXT Next
 CONSTANTS
   NChunks = 1
   CS = 2
-  NGets = 3
+  NGets = 2
   Ranges <- AllRanges
   Plays <- PlayMix
   Forces <- ForceMix
-  MaxInv = 1
+  MaxInv = 2
   MaxTrim = 0
-  MaxFail = 0
+  MaxFail = 1
   Age <- AllOld
   FixAwait = TRUE
   FixPublish = TRUE
